@@ -632,15 +632,21 @@ class MindsDBParser(Parser):
        'INSERT INTO identifier select',
        'INSERT INTO identifier union')
     def insert(self, p):
-        columns = getattr(p, 'column_list', None)
+        columns = self.insert_columns(p)
         query = p.select if hasattr(p, 'select') else p.union
         return Insert(table=p.identifier, columns=columns, from_select=query)
 
     @_('INSERT INTO identifier LPAREN column_list RPAREN VALUES expr_list_set',
        'INSERT INTO identifier VALUES expr_list_set')
     def insert(self, p):
-        columns = getattr(p, 'column_list', None)
+        columns = self.insert_columns(p)
         return Insert(table=p.identifier, columns=columns, values=p.expr_list_set)
+
+    def insert_columns(self, p):
+        if not hasattr(p, 'column_list'):
+            return None
+        # the list holds the text of the tokens: get the names (without back-quotes) from it
+        return [Identifier.from_path_str(col) for col in p.column_list]
 
     @_('expr_list_set COMMA expr_list_set')
     def expr_list_set(self, p):
